@@ -38,6 +38,9 @@ frozen = z3.Function("dataclass_is_frozen", Val, BoolS)
 reprf = z3.Function("repr", Val, Val)
 attr = {n: z3.Function(f"cls.{n}", Val, Val) for n in ("__name__", "__bases__", "__qualname__", "__module__", "__class__")}
 ArrB = z3.ArraySort(Val, BoolS)
+n_bases = z3.Function("n_bases", Val, IntS)
+base_at = z3.Function("base_at", Val, IntS, Val)
+offset = {n: z3.Function(f"offset_of{n}", Val, IntS) for n in ("__dict__", "__weakref__")}
 base_declares_state = z3.Function("a_base_declares___getstate___or___setstate__", Val, BoolS)
 base_provides = {n: z3.Function(f"a_direct_base_already_provides{n}", Val, BoolS) for n in ("__dict__", "__weakref__")}
 
@@ -102,13 +105,27 @@ class Meta:
         self.t = t
 
 
+def _bases_val(x):
+    return x.src_val if isinstance(x, SSeq) and getattr(x, "src_val", None) is not None else to_val(x)
+
+
 def make_interp(st):
     import dataclasses
     import warnings
     I = install(Interp())
     for n, f in attr.items():
-        if n != "__class__":
+        if n not in ("__class__", "__bases__"):
             I.sv_attr[n] = (lambda f: lambda I, path, obj: SV(f(obj.t)))(f)
+
+    # cls.__bases__: a tuple of base objects, each with its own tp_dictoffset / tp_weaklistoffset (CPython: non-zero exactly when
+    # instances of that base already carry a __dict__ / __weakref__) - executed symbolically, however the code asks about them
+    def bases_of(I, path, obj):
+        sq = SSeq(n_bases(obj.t), lambda i, c=obj.t: SV(base_at(c, to_int(i))), "tuple")
+        sq.src_val = attr["__bases__"](obj.t)
+        return sq
+    I.sv_attr["__bases__"] = bases_of
+    I.sv_attr["__dictoffset__"] = lambda I, path, obj: SInt(offset["__dict__"](obj.t))
+    I.sv_attr["__weakrefoffset__"] = lambda I, path, obj: SInt(offset["__weakref__"](obj.t))
     I.sv_attr["__dict__"] = lambda I, path, obj: st["ns0"]
     I.sv_attr["__dataclass_params__"] = lambda I, path, obj: obj
     I.sv_attr["frozen"] = lambda I, path, obj: SBool(frozen(obj.t))
@@ -124,12 +141,11 @@ def make_interp(st):
     I.builtin_models[set] = lambda I, path, a, k: FnSet(lambda x: z3.BoolVal(False)) if not a else _MISSING
     # taken by contract for exactly these expressions (CPython: a class whose tp_dictoffset / tp_weaklistoffset is non-zero gives
     # its instances a __dict__ / __weakref__ - true of every class without __slots__): "some direct base already provides one"
+    # ('\u00a7' marks the one variable the expression is about - whatever it is called where the expression stands)
     I.expr_contracts = {
-        "any((b.__dictoffset__ for b in cls.__bases__))": lambda I, env, path: SBool(base_provides["__dict__"](to_val(env.lookup("cls")))),
-        "any((b.__weakrefoffset__ for b in cls.__bases__))": lambda I, env, path: SBool(base_provides["__weakref__"](to_val(env.lookup("cls")))),
         # some class of the mro other than cls itself and object declares a state method in its own namespace
-        "any((param in vars(c) for c in cls.__mro__[1:-1] for param in ('__getstate__', '__setstate__')))":
-            lambda I, env, path: SBool(base_declares_state(to_val(env.lookup("cls")))),
+        "any((param in vars(c) for c in \u00a7.__mro__[1:-1] for param in ('__getstate__', '__setstate__')))":
+            lambda I, env, path, subject=None: SBool(base_declares_state(to_val(subject))),
     }
     I.stubs[f"{MOD}._stack"] = st["stack"]
 
@@ -227,7 +243,7 @@ def make_interp(st):
         if isinstance(f, SCls) and len(args) == 3:            # cls.__class__(name, bases, namespace): the metaclass builds the new class
             ns = args[2]
             snap = SDict.from_arrays(*ns.arrays) if isinstance(ns, SDict) and ns.arrays else ns
-            nc = NewClass(f.t, to_val(args[0]), to_val(args[1]), snap)
+            nc = NewClass(f.t, to_val(args[0]), _bases_val(args[1]), snap)
             nc.names = st["cur"].get("names")
             return nc
         return orig_call_value(f, args, kwargs, path, node=node, env=env) if node is not None or env is not None else orig_call_value(f, args, kwargs, path)
@@ -237,7 +253,7 @@ def make_interp(st):
         if isinstance(f, Meta):
             ns = args[2]
             snap = SDict.from_arrays(*ns.arrays) if isinstance(ns, SDict) else ns
-            nc = NewClass(f.t, to_val(args[0]), to_val(args[1]), snap)
+            nc = NewClass(f.t, to_val(args[0]), _bases_val(args[1]), snap)
             nc.names = st["cur"].get("names")
             return nc
         return _MISSING
@@ -311,17 +327,25 @@ def _run(chk, func, dflag, wflag):
     isname = z3.Function("is_an_erased_name", Val, BoolS)       # x is one of field_names (fields + requested extras): definitional
     name_wit = z3.Function("index_among_names", Val, IntS)
 
-    def name_axioms(names):
+    def name_axioms(names, nm_obj=None):
         n = names.length if not isinstance(names.length, int) else z3.IntVal(names.length)
-        return [Q([IntS], lambda i: z3.Implies(z3.And(i >= 0, i < n), isname(to_val(names.at(SInt(i))))), name="isname-intro"),
-                Q([Val], lambda x: z3.Implies(isname(x), z3.And(name_wit(x) >= 0, name_wit(x) < n, to_val(names.at(SInt(name_wit(x)))) == x)), trigger=isname, name="isname-elim")]
+        cls_t = st["cls"]
+        # introduction: every field name is an erased name (triggered by the field_name applications of the query - an
+        # untriggered schema over all Int terms made the proof depend on how many Int terms happen to be around), and so is
+        # every requested extra (ground facts)
+        intro = [Q([IntS], lambda i: z3.Implies(z3.And(i >= 0, i < n_fields(cls_t)), isname(field_name(cls_t, i))),
+                   trigger=field_name, pick=[1], name="isname-intro-fields")]
+        intro += [isname(S(e)) for e in (nm_obj.extras if nm_obj is not None else [])]
+        return intro + [Q([IntS], lambda i: z3.Implies(z3.And(i >= 0, i < n), isname(to_val(names.at(SInt(i))))), name="isname-intro"),
+                        Q([Val], lambda x: z3.Implies(isname(x), z3.And(name_wit(x) >= 0, name_wit(x) < n, to_val(names.at(SInt(name_wit(x)))) == x)), trigger=isname, name="isname-elim")]
 
     def havoc(I, path, env, k):
         d = env.lookup(env.find(lambda v: isinstance(v, SDict), "namespace copy (symbolic dict)"))
         st["cur"]["pre_loop"] = d.arrays
         new = SDict.from_arrays(path.fresh("ns_has", ArrB), path.fresh("ns_val", z3.ArraySort(Val, Val)))
         d.has, d.get, d.arrays = new.has, new.get, new.arrays
-        for a in name_axioms(env.lookup(env.find(lambda v: isinstance(v, Names), "ordered field-name dict")).seq()):
+        nm_obj = env.lookup(env.find(lambda v: isinstance(v, Names), "ordered field-name dict"))
+        for a in name_axioms(nm_obj.seq(), nm_obj):
             path.assume(a)
 
     def inv(I, path, env, k):
@@ -342,6 +366,10 @@ def _run(chk, func, dflag, wflag):
         st["ns0"] = SDict.from_arrays(path.fresh("ns0_has", ArrB), path.fresh("ns0_val", z3.ArraySort(Val, Val)))
         path.assume(n_fields(cls) >= 0)
         path.assume(cls != VNone)
+        path.assume(n_bases(cls) >= 0)
+        from pyvc.ground import exists_witness
+        for nm in ("__dict__", "__weakref__"):      # definition: some direct base has a non-zero offset
+            path.assume(base_provides[nm](cls) == exists_witness(path, n_bases(cls), lambda j, nm=nm: offset[nm](base_at(cls, j)) != 0, "base_provides" + nm))
         # domain: no dataclass field is named like the special namespace entries wrap itself writes or erases
         path.assume(Q([IntS], lambda i: z3.And(*[field_name(cls, i) != S(n) for n in ("__slots__", "__setstate__", "__getstate__", "__dict__", "__weakref__")]),
                       trigger=field_name, pick=[1], name="field-names-are-not-special-entries"))
@@ -382,7 +410,7 @@ def _one(chk, func, pid, path, out, obls, cur, dflag, wflag):
     j = path.fresh("j", IntS)
     is_field = z3.Function("is_a_field_name", Val, BoolS)
     wit = z3.Function("field_index_of", Val, IntS)
-    fld_intro = Q([IntS], lambda i: z3.Implies(z3.And(i >= 0, i < n_fields(cls)), is_field(field_name(cls, i))), name="field-intro")
+    fld_intro = Q([IntS], lambda i: z3.Implies(z3.And(i >= 0, i < n_fields(cls)), is_field(field_name(cls, i))), trigger=field_name, pick=[1], name="field-intro")
     fld_elim = Q([Val], lambda y: z3.Implies(is_field(y), z3.And(wit(y) >= 0, wit(y) < n_fields(cls), field_name(cls, wit(y)) == y)), trigger=is_field, name="field-elim")
     special = [S("__slots__"), S("__setstate__"), S("__dict__"), S("__weakref__")]
     erased = z3.Or(is_field(x), x == S("__dict__"), x == S("__weakref__"))
